@@ -5,6 +5,7 @@
 (* order (single-threaded event loop), with the step's arguments:           *)
 (*                                                                         *)
 (*  Conn    c                       connection accepted                     *)
+(*  Recv    c m                     the handler took a message (m = command) *)
 (*  Req     c sid fs out gen reg    storage.subscribe finished (reg = the    *)
 (*                                  connection's registry afterwards)       *)
 (*  Close   c sid reg               storage.unsubscribe(c, sid)             *)
@@ -14,6 +15,7 @@
 (*  Notify  c sid gen e put         a notify task finished                   *)
 (*  QPut    c sid gen item          a query task enqueued an event / EOSE    *)
 (*  Send    c f                     a frame was written (projected)          *)
+(*  Limited c                       the rate limiter refused the message     *)
 (*  Drop    c                       unsubscribe(c): connection ended         *)
 (*  Idle    reg                     no task can run without the environment  *)
 (*                                                                         *)
@@ -31,7 +33,8 @@ EXTENDS Integers, Sequences, FiniteSets, TLC, Json, TraceData
 Conns == TD_Conns
 
 VARIABLES open, reg, outbox, qtask, eosed, pn, nf, accepted, sent, busy, owes,
-          tid, l, bad
+          tid, l, bad,
+          cur        \* [c -> <<>> | <<command>>]: the message connection c's handler took from the socket and has not handled yet
 
 R == INSTANCE Relay WITH Universe <- TD_Universe, OneCharNames <- TD_OneCharNames, Conns <- TD_Conns, SubIds <- TD_SubIds,
                          SubLimit <- TD_SubLimit, Backend <- TD_Backend, Gens <- TD_Gens, FilterSets <- {}
@@ -41,7 +44,20 @@ Trace == Traces[tid]
 Line == Trace[l]
 Range(s) == {s[i] : i \in DOMAIN s}
 
-TraceInit == tid \in DOMAIN Traces /\ l = 1 /\ bad = {} /\ R!Init
+TraceInit == tid \in DOMAIN Traces /\ l = 1 /\ bad = {} /\ R!Init /\ cur = [c \in Conns |-> <<>>]
+
+\* every message taken from the socket is handled exactly once: by the action of its command, or - when the rate limiter
+\* refuses it - not at all (Limited).  Recv lines set cur; the handling lines consume it.
+Handles(ln) == CASE ln.a = "Req" -> "REQ" [] ln.a = "Close" -> "CLOSE" [] ln.a = "Submit" -> "EVENT" [] OTHER -> "-"
+CurVerdict(ln) ==
+    IF ln.a \in {"Req", "Close", "Submit"} /\ cur[ln.c] # <<Handles(ln)>> THEN {"C13_OneHandlingPerMessage"}
+    ELSE IF ln.a = "Limited" /\ cur[ln.c] = <<>> THEN {"C18_LimitedIsNotProcessed"}
+    ELSE IF ln.a = "Recv" /\ cur[ln.c] # <<>> /\ cur[ln.c] # <<"OTHER">> THEN {"C13_OneHandlingPerMessage"}
+    ELSE {}
+CurNext(ln) == IF ln.a = "Recv" THEN [cur EXCEPT ![ln.c] = <<ln.m>>]
+               ELSE IF ln.a \in {"Req", "Close", "Submit", "Limited"} THEN [cur EXCEPT ![ln.c] = <<>>]
+               ELSE IF ln.a = "Drop" THEN [cur EXCEPT ![ln.c] = <<>>]
+               ELSE cur
 
 \* the registry of connection c as logged: [sid -> gen]
 RegGens(c) == [s \in DOMAIN reg[c] |-> reg[c][s].gen]
@@ -75,11 +91,13 @@ Step(ln, tr, ll) ==
                                     /\ R!Send(ln.c)
                                     /\ LET fr == sent'[ln.c][Len(sent'[ln.c])] IN
                                        fr.t = ln.f.t /\ fr.sid = ln.f.sid /\ (ln.f.t = "EVENT" => fr.e = ln.f.e)
-                              [] ln.f.t = "OK" -> /\ R!ReplyOk(ln.c, ln.f.ok)
-                                                   \* a refusal may carry an empty id ("?")
-                                                   /\ (ln.f.e = busy[ln.c][1] \/ (~ln.f.ok /\ ln.f.e = "?"))
+                              [] ln.f.t = "OK" -> \/ /\ R!ReplyOk(ln.c, ln.f.ok)
+                                                      \* a refusal may carry an empty id ("?")
+                                                      /\ (ln.f.e = busy[ln.c][1] \/ (~ln.f.ok /\ ln.f.e = "?"))
+                                                   \/ (~ln.f.ok /\ R!RefuseOk(ln.c))
                               [] ln.f.t = "NOTICE" -> R!Notice(ln.c)
                               [] OTHER -> FALSE
+      [] ln.a = "Limited" -> R!Limited(ln.c)
       [] ln.a = "Drop"   -> R!Disconnect(ln.c)
       [] OTHER -> FALSE
 
@@ -129,8 +147,9 @@ Adopt(ln) ==
                           ELSE [t |-> "OTHER"])]
             /\ outbox' = IF ln.f.t \in {"EVENT", "EOSE"} /\ outbox[ln.c] # <<>> THEN [outbox EXCEPT ![ln.c] = Tail(@)] ELSE outbox
             /\ busy' = IF ln.f.t = "OK" THEN [busy EXCEPT ![ln.c] = <<>>] ELSE busy
-            /\ owes' = IF ln.f.t = "NOTICE" THEN [owes EXCEPT ![ln.c] = 0] ELSE owes
+            /\ owes' = IF ln.f.t = "NOTICE" \/ (ln.f.t = "OK" /\ busy[ln.c] = <<>>) THEN [owes EXCEPT ![ln.c] = 0] ELSE owes
             /\ UNCHANGED <<open, reg, qtask, eosed, pn, nf, accepted>>
+      [] ln.a = "Limited" -> owes' = [owes EXCEPT ![ln.c] = 1] /\ UNCHANGED <<open, reg, outbox, qtask, eosed, pn, nf, accepted, sent, busy>>
       [] ln.a = "Drop" ->
             /\ open' = open \ {ln.c} /\ reg' = [reg EXCEPT ![ln.c] = <<>>] /\ owes' = [owes EXCEPT ![ln.c] = 0]
             /\ busy' = [busy EXCEPT ![ln.c] = <<>>]
@@ -155,7 +174,11 @@ EndVerdict(ln) ==
 
 TraceNext ==
     /\ l <= Len(Trace)
-    /\ IF Garbage(Line)
+    /\ cur' = CurNext(Line)
+    /\ IF Line.a = "Recv"
+       THEN /\ UNCHANGED rvars
+            /\ bad' = bad \cup {<<n, l>> : n \in CurVerdict(Line)}
+       ELSE IF Garbage(Line)
        THEN /\ UNCHANGED rvars
             /\ bad' = bad \cup {<<"C04_WellFormedFrame", l>>}
        ELSE IF Line.a = "Idle"
@@ -166,12 +189,12 @@ TraceNext ==
             /\ bad' = bad \cup {<<n, l>> : n \in EndVerdict(Line)}
        ELSE IF ENABLED Step(Line, Trace, l)
             THEN /\ Step(Line, Trace, l)
-                 /\ bad' = bad \cup {<<n, l>> : n \in R!StepVerdict \cup R!StateVerdict' \cup RegistryVerdict(Line)}
+                 /\ bad' = bad \cup {<<n, l>> : n \in R!StepVerdict \cup R!StateVerdict' \cup RegistryVerdict(Line) \cup CurVerdict(Line)}
             ELSE /\ Adopt(Line)
                  /\ bad' = bad \cup {<<"Conform", l>>} \cup {<<n, l>> : n \in R!StepVerdict \cup R!StateVerdict'}
     /\ l' = l + 1
     /\ tid' = tid
     /\ (l' > Len(Trace)) => PrintT("@@" \o ToJson([tid |-> tid, n |-> Len(Trace), bad |-> bad']))
 
-TraceSpec == TraceInit /\ [][TraceNext]_<<rvars, tid, l, bad>>
+TraceSpec == TraceInit /\ [][TraceNext]_<<rvars, tid, l, bad, cur>>
 =============================================================================
